@@ -29,8 +29,8 @@ LEVEL_TEXT = ("States = cache contents of a pool of real objects (two triangle m
               "one element on several meshes and equal-size different quadratures, assembly, interpolation, probes / interpolator at "
               "two point sets of equal size, every connectivity attribute, mapping queries in both layouts, refined / restrict / "
               "with_boundaries / translated / to_dict / save, enforce / condense / penalize, solve of two systems of different size "
-              "with each solver object). ALL histories of length 2 (quick) and, with dedup on a canonical digest of every "
-              "cache-bearing attribute, length 3 (thorough) are executed on a fresh pool; the last operation's result must equal "
+              "with each solver object). ALL histories of length 2 and, with dedup on a canonical digest of every "
+              "cache-bearing attribute, of length 3 (quick: those whose consecutive operations share a pooled object; thorough: all) are executed on a fresh pool; the last operation's result must equal "
               "the same operation on freshly constructed objects (exceptions on one side only count), and the digest of every "
               "pooled mesh / matrix / vector must be unchanged.")
 LEVEL_NOTE = ("Caches considered: mesh lazy attributes, mapping Jacobian cache and affine tables, element tables (V, Legendre "
@@ -40,7 +40,9 @@ RULE = ("state = canonical digest of cache-bearing attributes after a history; t
         "history whose last operation reads a cache entry or object written by an earlier, different operation (pooled object "
         "shared between the two).")
 ASSUMPTIONS = ["the pool is rebuilt from scratch for every history (live objects are not copied)", "floating results compared at 1e-11 relative"]
-BOUNDS = {'quick': {'history_length': 2}, 'thorough': {'history_length': 3, 'dedup': 'cache digest'}}
+BOUNDS = {'quick': {'history_length': 3, 'length_3_restricted_to': 'histories in which consecutive operations share a pooled object',
+                    'dedup': 'cache digest'},
+          'thorough': {'history_length': 3, 'length_3_restricted_to': None, 'dedup': 'cache digest'}}
 ITEM_TIMEOUT = {'quick': 900, 'thorough': 7200}
 
 
@@ -310,6 +312,10 @@ def work(item, tier, seed):
         nxt = []
         for h in hists:
             for n in names:
+                if len(h) >= 2 and BOUNDS[tier].get('length_3_restricted_to') and not (ops[h[-1]][1] & ops[n][1]):
+                    continue
+                if len(h) >= 2 and BOUNDS[tier].get('length_3_restricted_to') and not (ops[h[0]][1] & ops[h[1]][1]):
+                    continue
                 seq = h + [n]
                 P = make_pool(seed)
                 dig0 = digest_arrays(arrays_of_pool(P))
